@@ -85,8 +85,15 @@ fn main() {
         props::replay_regressions(&ctx, prop);
     }
     // committed fuzz corpus through this property's oracle (both tiers)
-    dmcheck::fuzzstage::corpus_stage(&ctx, prop);
+    // (C19 bounds work: its own stages go from short to long inputs, so that a weakened pruning step
+    // is reported from the counters of a short input before a long corpus input becomes slow)
+    if id != "C19" {
+        dmcheck::fuzzstage::corpus_stage(&ctx, prop);
+    }
     (prop.run)(&ctx);
+    if id == "C19" {
+        dmcheck::fuzzstage::corpus_stage(&ctx, prop);
+    }
     // coverage-guided stage (thorough tier only; VERIF_NO_FUZZ=1 skips it, VERIF_FUZZ_RUNS overrides the budget)
     if tier == Tier::Thorough && std::env::var("VERIF_NO_FUZZ").is_err() {
         let runs = std::env::var("VERIF_FUZZ_RUNS").ok().and_then(|s| s.parse().ok()).unwrap_or(prop.fuzz_runs);
